@@ -55,4 +55,62 @@ theorem planeDist2Keys_motion {m : Motion} (hm : m.rot.IsUnit) (keys : List Rat)
     getD_map_lt est _ (he ▸ hj) V2.zero, getD_map_lt gt _ (hg ▸ hj) V2.zero,
     dist2_motion hm, dist2_motion hm]
 
+/-! ### object identity is frame-free: a rigid motion is injective on positions and on orientations -/
+
+theorem apply2_injective (e : Pose) (h : e.rot.IsUnit) {p q : V2}
+    (hpq : e.motion.apply2 p = e.motion.apply2 q) : p = q := by
+  have := congrArg (toEgo2 e) hpq
+  rwa [toEgo2_apply2 e h, toEgo2_apply2 e h] at this
+
+theorem apply3_injective (e : Pose) (h : e.rot.IsUnit) {p q : V3}
+    (hpq : e.motion.apply3 p = e.motion.apply3 q) : p = q := by
+  cases p with
+  | mk px py pz =>
+  cases q with
+  | mk qx qy qz =>
+    simp only [Motion.apply3, V3.mk.injEq] at hpq
+    obtain ⟨hx, hy, hz⟩ := hpq
+    have h2 : e.motion.apply2 ⟨px, py⟩ = e.motion.apply2 ⟨qx, qy⟩ := by
+      cases hA : e.motion.apply2 ⟨px, py⟩ with
+      | mk ax ay =>
+      cases hB : e.motion.apply2 ⟨qx, qy⟩ with
+      | mk bx b_y =>
+        rw [hA, hB] at hx hy
+        simp only at hx hy
+        rw [hx, hy]
+    have := apply2_injective e h h2
+    simp only [V2.mk.injEq] at this
+    obtain ⟨h1, h2'⟩ := this
+    have hz' : pz = qz := by linarith
+    rw [h1, h2', hz']
+
+/-- left-multiplying orientations by a unit rotation is injective -/
+theorem rot_mul_injective (r : Rot2) (h : r.IsUnit) {a b : Rot2} (hab : r.mul a = r.mul b) : a = b := by
+  unfold Rot2.IsUnit at h
+  cases a with
+  | mk ac as_ =>
+  cases b with
+  | mk bc bs =>
+    simp only [Rot2.mul, Rot2.mk.injEq] at hab
+    obtain ⟨h1, h2⟩ := hab
+    have hc : ac = bc := by linear_combination (ac - bc) * (-h) + r.c * h1 + r.s * h2
+    have hs : as_ = bs := by linear_combination (as_ - bs) * (-h) - r.s * h1 + r.c * h2
+    rw [hc, hs]
+
+theorem samePose_iff (a b : Obj) :
+    a.samePose b = true ↔ (a.box.center = b.box.center ∧ a.box.rot = b.box.rot) := by
+  simp [Obj.samePose]
+
+/-- two objects are equal in the map rendering exactly when they are equal in the ego rendering -/
+theorem samePose_toMap' (e : Pose) (h : e.rot.IsUnit) (a b : Obj) :
+    (a.toMap e).samePose (b.toMap e) = a.samePose b := by
+  rw [Bool.eq_iff_iff, samePose_iff, samePose_iff]
+  simp only [Obj.toMap, Box.move]
+  constructor
+  · rintro ⟨hc, hr⟩
+    exact ⟨apply3_injective e h hc, rot_mul_injective e.rot h hr⟩
+  · rintro ⟨hc, hr⟩
+    rw [hc, hr]
+    exact ⟨rfl, rfl⟩
+
 end PEval.FrameChange
